@@ -11,6 +11,7 @@ import (
 	"context"
 	"flag"
 	"fmt"
+	"os"
 	"strings"
 	"sync"
 	"sync/atomic"
@@ -51,6 +52,7 @@ type cCase struct {
 	Workers int        `json:"workers"`
 	Phases  [][][]cOp  `json:"phases"` // phase -> worker -> ops
 	Final   []bool     `json:"final"`  // per worker: release leftovers by success (true) or failure
+	Excluded int       `json:"-"`
 }
 
 func genConcCase(t *rapid.T) cCase {
@@ -74,6 +76,13 @@ func genConcCase(t *rapid.T) cCase {
 					op.Upd = genSpecs(t, "upd", rapid.IntRange(3, 8).Draw(t, "nUpd"), fmt.Sprintf("e%dp", updates))
 					for j := range op.Upd {
 						if j < len(cc.Specs) && rapid.Bool().Draw(t, "keepAddr") {
+							// known finding: a multi-provider GetSessions that overlaps the epoch update loses the
+							// session of an address present in both pairings. While it is listed, concurrent updates
+							// install pairings with new addresses only.
+							if ev.Excluded(findingEpochOverwrite) {
+								cc.Excluded++
+								continue
+							}
 							op.Upd[j].Addr = cc.Specs[j].Addr
 						}
 					}
@@ -155,7 +164,7 @@ func (r *concRun) release(wk *cWorker, i int, kind string, fk failKind) {
 	switch kind {
 	case "done":
 		n := r.nProv
-		err = r.w.csm.OnSessionDone(h.s, 30, h.cu, time.Millisecond, h.s.CalculateExpectedLatency(2*time.Millisecond), 1, n, uint64(n), false, nil)
+		err = r.w.csm.OnSessionDone(h.s, 30, h.cu+uint64(3*(i%2)), time.Millisecond, h.s.CalculateExpectedLatency(2*time.Millisecond), 1, n, uint64(n), false, nil)
 	case "doneCU":
 		err = r.w.csm.OnSessionDoneIncreaseCUOnly(h.s, 30)
 	default:
@@ -175,7 +184,7 @@ func (r *concRun) release(wk *cWorker, i int, kind string, fk failKind) {
 func (r *concRun) runOps(wk *cWorker, ops []cOp) {
 	ctx := context.Background()
 	for _, op := range ops {
-		if r.harness.Load() != nil {
+		if r.harness.Load() != nil || r.l.abort.Load() {
 			return
 		}
 		switch op.Kind {
@@ -266,6 +275,9 @@ func runConcOnce(cc cCase) (viol []string, harness string, r *concRun) {
 			}(wk, phase[i])
 		}
 		wg.Wait()
+		if r.l.abort.Load() {
+			return r.l.violations(), "", r
+		}
 		// barrier: nothing executes, sessions may still be in flight
 		r.l.exact()
 		// relays that are shared by all workers are replaced so that they do not fill up
@@ -273,6 +285,9 @@ func runConcOnce(cc cCase) (viol []string, harness string, r *concRun) {
 		r.shared[1].Store(r.newUP())
 		if h := r.harness.Load(); h != nil {
 			return r.l.violations(), *h, r
+		}
+		if r.l.abort.Load() {
+			return r.l.violations(), "", r
 		}
 		if v := r.l.violations(); len(v) > 0 {
 			return v, "", r
@@ -311,6 +326,8 @@ func runConcOnce(cc cCase) (viol []string, harness string, r *concRun) {
 }
 
 func propC28Conc(t *rapid.T) {
+	tok := beginCase()
+	defer tok.end()
 	c := ev.For("C28")
 	cc := genConcCase(t)
 	reps := 1
@@ -324,6 +341,9 @@ func propC28Conc(t *rapid.T) {
 		viol, harness, r = runConcOnce(cc)
 		if harness != "" {
 			t.Fatalf("%s", ev.HarnessError("%s", harness))
+		}
+		if h := harnessOnly(viol); h != "" {
+			t.Fatalf("%s", ev.HarnessError("%s", h))
 		}
 		if len(viol) > 0 {
 			t.Fatalf("%s", ev.Violation("C28", "concurrent mode, %d workers, providers %s:\n%s\nscripts: %s", cc.Workers, specString(cc.Specs), strings.Join(viol, "\n"), cc.fingerprint()))
@@ -351,6 +371,10 @@ func propC28Conc(t *rapid.T) {
 	if r.l.nReuse > 0 {
 		classes = append(classes, "session-reused")
 	}
+	tok.done = true
+	if cc.Excluded > 0 {
+		c.Exclude(findingEpochOverwrite)
+	}
 	c.Case(nontrivial, cc.fingerprint(), classes...)
 	c.AddExtra("ledger_interval_checks", r.l.nIntervalChecks)
 	c.AddExtra("ledger_exact_checks", r.l.nExactChecks)
@@ -367,5 +391,21 @@ func propC28Conc(t *rapid.T) {
 
 func TestC28Conc(t *testing.T) {
 	setRule()
+	if casesAborted.Load() > 0 {
+		t.Skip("a sequential case already failed; the concurrent mode is not run on top of a reported violation")
+	}
+	rapid.Check(t, propC28Conc)
+}
+
+// TestC28Replay is what `./check C28 --replay <log>` runs for a finding that has no rapid fail file
+// (a race-detector report on the used-CU counter): the concurrent mode is run again for 200 cases
+// with a fixed seed and the race reports are scanned again by TestMain.
+func TestC28Replay(t *testing.T) {
+	if os.Getenv("VERIF_REPLAY") == "" {
+		t.Skip("only used by ./check C28 --replay")
+	}
+	setRule()
+	_ = flag.Set("rapid.seed", "280028")
+	_ = flag.Set("rapid.checks", "200")
 	rapid.Check(t, propC28Conc)
 }
